@@ -36,7 +36,7 @@ def _common_evidence(prop, level, agg, det, tier, seed, wall, t_main, n_new, rep
     hours = max(wall, 1e-9) / 3600.0
     cov = {
         "evaluations": agg.evaluations,
-        "distinct_nontrivial": len(agg.nontrivial_digests),
+        "distinct_nontrivial": len(agg.nontrivial_digests) + agg.enum_nontrivial,
         "rule": rule,
         "samples": agg.samples[:2] if agg.samples else [{"note": "no clean sample trace captured"}],
         "exhaustive": False,
@@ -95,8 +95,8 @@ def c14(tier):
         p = {"fault_config": FAULT_CONFIGS[i % 4], "budget": 3.0 if quick else 6.0, "max_pto": 2}
         if jit and not quick:
             p["budget"] = 8.0
-            if i % 10 == 9:
-                p.update(max_pto=3, allow_n3lo=True, budget=40.0, max_ops=8)
+            if i % 20 == 19:
+                p.update(n3lo=True, budget=30.0, max_ops=9)
         return p
 
     def evidence(agg, det, tier, seed, wall, t_main, n_new, replays, unprocessed):
@@ -122,7 +122,7 @@ def c14(tier):
         "jit_modes": [False] if quick else [False, True],
         "params": params,
         "watchdog": 240 if quick else 900,
-        "det_sample": 12 if quick else 200,
+        "det_sample": 12 if quick else max(12, _scale(200)),
         "det_rounds": [(12345, 2)] if quick else [(12345, 1), (999, 16)],
         "wall_cap": 900 if quick else 3 * 3600,
         "evidence": evidence,
